@@ -1,13 +1,14 @@
 SPECIFICATION Spec
 CONSTANTS
   Dirs = {"A", "B"}
-  ChunkSizes <- BidirSizes
+  ChunkSizes = {4096}
   Shapes <- OneShape
   AbsLens = {1, 300}
   RelLens = FALSE
   MaxWrites = 3
   WriterFollowsOwnSCS = TRUE
-  HsOrder = "serial"
+  HsOrder = "free"
   HsReadExact = TRUE
-INVARIANTS NoDesync Emit
+INVARIANTS NoDesync PrefixOk InFollowsOut Independent AllDelivered HandshakeBytes HsExact NoByteLost SessionAfterHandshake
+VIEW NoHistory
 CHECK_DEADLOCK FALSE
